@@ -283,8 +283,30 @@ func competitorOf(w *World, withConflict bool) ([]*ledger.Block, error) {
 	return cb, nil
 }
 
+// extensionOf builds the host's chain plus ONE block produced by a real node of another validator at the next slot
+// (the slot of the host's own next tick).
+func extensionOf(w *World) ([]*ledger.Block, error) {
+	hb := w.H.AllBlocks()
+	pc, err := adopt("pe", w.S, node.NewWallet(9).Address, hb)
+	if err != nil {
+		return nil, err
+	}
+	pc.Pool.Validate(hb[len(hb)-1].Timestamp() + w.S.Interval)
+	cb := pc.AllBlocks()
+	if len(cb) != len(hb)+1 {
+		return nil, fmt.Errorf("extender has %d blocks, host %d: %v", len(cb), len(hb), tailStr(pc.Log.Snapshot(), 3))
+	}
+	return cb, nil
+}
+
 func runInner(w *World, rc *runCtx, inner string, txKey int) {
 	switch inner {
+	case "engine:Blockchain.Update:extend1":
+		// a sync round that adopts ONE more block, dated as the host's own next tick (prepared before: onePlacement)
+		if w.competitor != nil {
+			w.publish(w.competitor)
+			w.H.Chain.Update(farFuture)
+		}
 	case "engine:Blockchain.Update:tipswap", "engine:Blockchain.Update:tipswap-conflict":
 		// a sync round that swaps the tip for a competitor of the same height (prepared before the outer operation
 		// started: see onePlacement)
@@ -344,6 +366,13 @@ func onePlacement(sp placementSpec) (out placementOutcome) {
 	prepare := func(w *World) {
 		submit(w, 1)
 		submit(w, 2)
+		if sp.Inner == "engine:Blockchain.Update:extend1" {
+			c, err := extensionOf(w)
+			if err != nil {
+				out.Panic = "extension: " + err.Error()
+			}
+			w.competitor = c
+		}
 		if strings.HasPrefix(sp.Inner, "engine:Blockchain.Update:tipswap") || sp.Outer == "Blockchain.Update:tipswap" {
 			c, err := competitorOf(w, strings.HasSuffix(sp.Inner, "-conflict"))
 			if err != nil {
@@ -505,6 +534,12 @@ func runPlacements(tablesPath, work string, seed int64, sel string, workers int)
 			k := "TransactionsPool.Validate@" + canon + "/" + in
 			specs = append(specs, placementSpec{"TransactionsPool.Validate", where, canon, in, "dynamic-only", "C16/placement/" + k})
 		}
+	}
+	// a round that adopts one more block — dated as the tick's own slot — between the tick's reads and its AddBlock
+	for _, lab := range []string{"Blockchain.LastBlockTransactions", "UtxosRegistry.Copy", "Blockchain.AddBlock"} {
+		where, canon := hookFor("TransactionsPool.Validate", lab)
+		k := "TransactionsPool.Validate@" + canon + "/engine:Blockchain.Update:extend1"
+		specs = append(specs, placementSpec{"TransactionsPool.Validate", where, canon, "engine:Blockchain.Update:extend1", "dynamic-only", "C16/placement/" + k})
 	}
 	// … and the converse: block production (which confirms the host's tip) and an admission, run to completion while a
 	// tip-swapping sync round waits for its neighbour's answer
